@@ -70,10 +70,23 @@ def build_ops(hist, txns):
                 o[k] = c[k]
         ops.append(o)
         ops.append({"op": "send", "conn": "t%d" % i, "data": "LHLO x\r\n", "until": "lmtp:1"})
+        pos = {"prevdump": pre if not tpos else tpos[-1]["dump"]}
         ops.append({"op": "c01_usage"})
-        ops.append({"op": "c01_txn", "conn": "t%d" % i, "from": "a@example.com", "rcpts": t["rs"], "data": t["msg"]["raw"]})
+        pos["usage"] = len(ops) - 1
+        if t.get("fault"):
+            # another connection holds shared.db's write lock while the message is stored: every
+            # write to the blobs table fails after the 5 s busy timeout, reads and the per-user store work
+            ops.append({"op": "db_lock"})
+        ops.append({"op": "c01_txn", "conn": "t%d" % i, "from": "a@example.com", "rcpts": t["rs"], "data": t["msg"]["raw"],
+                    "timeout_ms": 90000 if t.get("fault") else 8000})
+        pos["txn"] = len(ops) - 1
+        if t.get("fault"):
+            ops.append({"op": "db_unlock"})
         ops.append({"op": "dump"})
-        tpos.append(len(ops) - 2)
+        pos["dump"] = len(ops) - 1
+        ops.append({"op": "c01_parts"})
+        pos["parts"] = len(ops) - 1
+        tpos.append(pos)
     # fresh IMAP sessions: one per user store, the role store through its assignee
     fpos = []
     who = [("user", U, U, ""), ("user", V1, V1, ""), ("user", V2, V2, ""), ("role", R1, U, "Roles/%s/" % R1)]
@@ -134,16 +147,16 @@ def coq_key(k):
     return "(KRole %s)" % C.coq_str(k[1])
 
 
-def coq_parsed(m):
+def coq_parsed(m, fault=False):
     sh = m["shape"]
     s = {"single": "Single", "nob": "MultiNoBoundary", "broken": "MultiBroken"}.get(sh) if isinstance(sh, str) else "(MultiB %d)" % sh[1]
-    return "(mkParsed %s %s %d %s)" % (C.coq_bool(m["p_ok"]), C.coq_bool(m["spam"]), m["hdrs"], s)
+    return "(mkParsed %s %s %d %s %d %s)" % (C.coq_bool(m["p_ok"]), C.coq_bool(m["spam"]), m["hdrs"], s, m.get("big", 0), C.coq_bool(fault))
 
 
 def coq_store_obs(k, s):
     mbs = C.coq_list(["(%d, %s, %d)" % (m[0], C.coq_str(m[2]), m[4]) for m in (s.get("mailboxes") or [])])
     lks = C.coq_list(["(%d, %d, %d, %d)" % (l[0], l[1], l[2], l[3]) for l in (s.get("links") or [])])
-    gs = C.coq_list(["(%d, %d, %d)" % (g[0], g[1], g[2]) for g in (s.get("messages") or [])])
+    gs = C.coq_list(["(%d, %d, %d, %d, %d)" % (g[0], g[1], g[2], g[3] if len(g) > 3 else 0, g[4] if len(g) > 4 else 0) for g in (s.get("messages") or [])])
     return "(%s, %s, %s, %s)" % (coq_key(k), mbs, lks, gs)
 
 
@@ -167,6 +180,19 @@ class Scen:
         self.accepted = 0
         self.digest()
 
+    @staticmethod
+    def with_parts(dump, parts):
+        """stores by key; every messages row (id, #headers, #parts) extended by (#parts with a blob, #parts without octets)"""
+        st = dump.get("stores", {})
+        sh = st.get("shared", {})
+        out = stores_by_key(dump)
+        for name, rows in (parts.get("parts") or {}).items():
+            k = key_of_store(name, sh)
+            if k in out:
+                extra = {r[0]: (int(r[1] or 0), int(r[2] or 0)) for r in rows or []}
+                out[k] = dict(out[k], messages=[list(g[:3]) + list(extra.get(g[0], (0, 0))) for g in (out[k].get("messages") or [])])
+        return out
+
     def digest(self):
         if self.res.get("crashed"):
             self.trouble = "driver crashed: %s" % self.res.get("stderr", "")[-300:]
@@ -184,11 +210,11 @@ class Scen:
         if self.h.trouble:
             self.trouble = "history: " + self.h.trouble
             return
-        self.dumps = [stores_by_key(obs[pre])] + [stores_by_key(obs[p + 1]) for p in tpos]
-        self.codes = [codes_of(obs[p].get("final")) for p in tpos]
-        self.finals = [obs[p].get("final") for p in tpos]
+        self.dumps = [stores_by_key(obs[pre])] + [self.with_parts(obs[p["dump"]], obs[p["parts"]]) for p in tpos]
+        self.codes = [codes_of(obs[p["txn"]].get("final")) for p in tpos]
+        self.finals = [obs[p["txn"]].get("final") for p in tpos]
         # the recipients accepted at RCPT time (250): the positions of the transaction
-        self.rcpt_codes = [codes_of(obs[p].get("rcpt")) for p in tpos]
+        self.rcpt_codes = [codes_of(obs[p["txn"]].get("rcpt")) for p in tpos]
         self.acc = [[r for r, c in zip(t["rs"], rc) if c == 250] for t, rc in zip(self.txns, self.rcpt_codes)]
         # the quota verdict, measured: usage of the store the recipient would be filed into when the
         # message arrives (role store | store of the enabled user | nothing yet) + size > limit
@@ -197,9 +223,9 @@ class Scen:
             c = cfg_of(t)
             ov = []
             if c.get("quota_enabled"):
-                sh = obs[p - 4]["stores"].get("shared", {}) if ti > 0 else obs[pre]["stores"].get("shared", {})
+                sh = obs[p["prevdump"]]["stores"].get("shared", {})
                 usage = {}
-                for name, v in (obs[p - 1].get("usage") or {}).items():
+                for name, v in (obs[p["usage"]].get("usage") or {}).items():
                     k = key_of_store(name, sh)
                     if k is not None:
                         usage[k] = int(v)
@@ -276,6 +302,9 @@ class Scen:
                         self.viol.append((ti, "not_listed", "store %r: UID FETCH 1:* in %r does not list the accepted message (UID %d)" % (k, mbn_final.get(l[2]), l[3]), None))
                         continue
                     miss = [tk for tk in msg["tokens"] if tk not in body]
+                    if g is not None and len(g) > 4 and g[4] > 0:
+                        self.viol.append((ti, "part_without_octets", "store %r UID %d in %s: %d part row(s) with neither a blob nor inline content although the part had a size" % (
+                            k, l[3], mbn_final.get(l[2]), g[4]), None))
                     if g is None or g[2] == 0 or body == "" or miss:
                         cls = None
                         self.viol.append((ti, "unfetchable", "store %r UID %d in %s: %s (part rows %s, literal of %d bytes)" % (
@@ -301,7 +330,7 @@ class Scen:
             c = cfg_of(t)
             ts.append("(mkCfg %s %s %s, %s, %s, %s, %s)" % (C.coq_str(c["folder"]), C.coq_z(c.get("max_size", BIG)), C.coq_bool(c.get("quota_enabled", False)),
                                                           C.coq_list([C.coq_str(r) for r in self.over[ti]]),
-                                                          C.coq_list([C.coq_str(r) for r in self.acc[ti]]), coq_parsed(t["msg"]), C.coq_z(len(t["msg"]["raw"]))))
+                                                          C.coq_list([C.coq_str(r) for r in self.acc[ti]]), coq_parsed(t["msg"], bool(t.get("fault"))), C.coq_z(len(t["msg"]["raw"]))))
         ts = C.coq_list(ts)
         os_ = []
         for ti in range(len(self.txns) + 1):
@@ -351,6 +380,24 @@ def gen_rs(rng, with_disabled):
     if rng.random() < 0.35:
         rs.insert(rng.randint(0, len(rs)), rng.choice(rs))       # a duplicate
     return rs
+
+
+def gen_fault_txn(rng, tag):
+    """the fault dimension: writes to shared.db's blobs table fail while the message is stored
+    (a second connection holds BEGIN IMMEDIATE; every blob write costs the 5 s busy timeout),
+    reads of shared.db and the per-user / role store work.  Recipients whose stores and
+    shared rows exist already; a message with one or two out-of-line parts (or none: control)."""
+    while True:
+        msg = M.gen_message(rng, tag, rng.choice(["single_big", "single_big", "multi_big", "multi", "single"]))
+        if msg.get("big", 0) <= 2:
+            break
+    rs = rng.choice([[U], [U], [R1], [U, R1], [U, U], [U, "bad"]])
+    c = {"folder": rng.choice(["INBOX", "D"])}
+    kinds = ["blob_write_fails"]
+    if rng.random() < 0.3:
+        c["quota_enabled"], c["quota_limit"] = True, 20 * BIG
+        kinds.append("quota_far")
+    return {"cfg": c, "cfg_kinds": kinds, "rs": rs, "msg": msg, "fault": True}
 
 
 def gen_txn(rng, tag, earlier_sizes):
@@ -409,7 +456,7 @@ DIRECTED = [
 ]
 
 
-def gen_scenario(rng, n, hist_len, copy_ok):
+def gen_scenario(rng, n, hist_len, copy_ok, fault_every=12):
     r = rng.random()
     if r < 0.3:
         hist = [dict(s) for s in rng.choice(DIRECTED)]
@@ -418,6 +465,10 @@ def gen_scenario(rng, n, hist_len, copy_ok):
     txns = []
     for j in range(rng.choice([1, 2, 2, 3])):
         txns.append(gen_txn(rng, "%dx%d" % (n, j), [len(t["msg"]["raw"]) for t in txns]))
+    if n % fault_every == 0:
+        # one transaction of this scenario runs under the blob-write fault (costs 5 s per out-of-line
+        # part and recipient: few of them, spread over the parallel workers)
+        txns.insert(rng.randint(0, len(txns)), gen_fault_txn(rng, "%dxf" % n))
     return hist, txns
 
 
@@ -537,7 +588,7 @@ def run(chk):
     n_scen, hist_len = (96, 14) if quick else (1500, 30)
     items = [gen_scenario(chk.rng, i, hist_len, copy_ok) for i in range(n_scen)]
     kinds, rk, combos, cfgk = {}, {}, set(), {}
-    refused_rcpt = oversize = over_q = 0
+    refused_rcpt = oversize = over_q = faults = fault_inline = 0
     batch = 48
     sample_done = False
     for b in range(0, len(items), batch):
@@ -564,6 +615,11 @@ def run(chk):
                 kinds[t["msg"]["kind"]] = kinds.get(t["msg"]["kind"], 0) + 1
                 for r in t["rs"]:
                     rk[r] = rk.get(r, 0) + 1
+                if t.get("fault"):
+                    faults += 1
+                    g_new = [g for k_ in sc.dumps[ti + 1] for g in (sc.dumps[ti + 1][k_].get("messages") or [])
+                             if g[0] not in set(x[0] for x in (sc.dumps[ti].get(k_, {}).get("messages") or []))]
+                    fault_inline += sum(1 for g in g_new if len(g) > 3 and g[3] == 0) if t["msg"].get("big", 0) > 0 else 0
                 for ck in t.get("cfg_kinds", ["default"]):
                     cfgk[ck] = cfgk.get(ck, 0) + 1
                 refused_rcpt += len(t["rs"]) - len(sc.acc[ti])
@@ -594,6 +650,10 @@ def run(chk):
     chk.cov["recipients_refused_at_rcpt"] = refused_rcpt
     chk.cov["transactions_refused_oversize_552"] = oversize
     chk.cov["positions_over_quota_measured"] = over_q
+    chk.cov["transactions_under_blob_write_fault"] = faults
+    chk.cov["messages_with_out_of_line_parts_kept_inline_under_fault"] = fault_inline
+    if faults and not fault_inline:
+        chk.broken_obligation("the blob-write fault was injected %d times but no message with an out-of-line part was stored inline: the fault dimension no longer exercises the fallback branch" % faults, {"suite": "deliver"})
     chk.cov["transactions_outside_classes"] = stats["clean"]
     chk.cov["transactions_outside_classes_spec_holds_on_impl"] = stats["clean_ok"]
     chk.cov["known_class_hits"] = stats["known"]
